@@ -699,7 +699,7 @@ def expand_additional_doses(model: Model, flag: bool = False):
     df = df.apply(fn, axis=1)
     df = df.apply(lambda x: x.explode() if x.name in ['_TIMES', '_EXPANDED'] else x)
     df = df.astype({'_EXPANDED': np.bool_})
-    df = df.groupby([idcol, '_RESETGROUP'], group_keys=False)[df.columns].apply(
+    df = df.groupby([idcol, '_RESETGROUP'], group_keys=False, sort=False)[df.columns].apply(
         lambda x: x.sort_values(by='_TIMES', kind='stable')
     )
     df[idv] = df['_TIMES'].astype(np.float64)
@@ -1125,7 +1125,7 @@ def add_time_after_dose(model: Model):
 
     # Sort in case DOSEIDs are non-increasing
     df = (
-        df.groupby(idlab)[df.columns]
+        df.groupby(idlab, sort=False)[df.columns]
         .apply(lambda x: x.sort_values(by=['_DOSEID'], kind='stable', ignore_index=True))
         .reset_index(drop=True)
     )
